@@ -212,6 +212,13 @@ int evaluate_module(void *data, const char *key, void *value) {
 int start(m_mod_t *mod, bool starting) {
     static const char *errors[] = { "Failed to resume module.", "Failed to start module." };
 
+    M_MOD_CTX(mod);
+    /*
+     * A module that has left its context (it is being deregistered) stays down:
+     * its on_stop() hook, run by the deregistration, cannot bring it back as a running zombie.
+     */
+    M_RET_ASSERT(m_map_get(c->modules, mod->name) == mod, -EACCES);
+
     /* 
      * Starting module for the first time
      * or after it was stopped.
@@ -225,7 +232,6 @@ int start(m_mod_t *mod, bool starting) {
         }
     }
 
-    M_MOD_CTX(mod);
     int ret = manage_srcs(mod, c, ADD, false);
     M_LOG_ASSERT(!ret, errors[starting], ret);
     
